@@ -310,7 +310,7 @@ MUTANTS = [
     M("d06", "idc", IDC, "        for outcome in new_event_keys:\n            remaining_outcomes[outcome] = new_event[outcome]\n        return remaining_outcomes, remaining_conditions\n    elif len(missing_conditions) > 0:\n",
       "        for outcome in new_event_keys:\n            remaining_conditions[outcome] = new_event[outcome]\n        return remaining_outcomes, remaining_conditions\n    elif len(missing_conditions) > 0:\n", ["C08"],
       "wrong dict: a renamed OUTCOME is filed under the conditions (outcomes may become empty: rule 2 then 'applies' vacuously and conditions are dropped)"),
-    M("d07", "idc", IDC, "    new_event_keys = set(new_event) - set(outcomes) - set(conditions)\n", "    new_event_keys = set(new_event) - set(outcomes)\n", OUT,
+    M("d07", "idc", IDC, "        set(new_event) - set(outcomes) - set(conditions), key=_variable_sort_key\n", "        set(new_event) - set(outcomes), key=_variable_sort_key\n", OUT,
       "dropped operand: when an outcome was renamed, the surviving CONDITIONS are also filed under the outcomes: rule 2 is then tested between a "
       "condition and itself and fails: fewer exchanges; the final quotient joint / conditions is unchanged"),
     M("d08", "idc", IDC, "        if cf_rule_2_of_do_calculus_applies(cf_graph, new_outcomes, condition):\n", "        if cf_rule_2_of_do_calculus_applies(cf_graph, outcomes, condition):\n", ["C08"],
